@@ -26,7 +26,7 @@ def main(tier):
     # memory-safety sub-family: the smallest bases of every family again on the ASan+UBSan library
     c.run_family('asan', 'c04', 'h', env=env, hi=per['h'] * (150 if quick else 1200), per_case_timeout=20)
     c.run_family('asan', 'c04', 'i', env=env, hi=per['i'] * (40 if quick else 600), per_case_timeout=20)
-    c.run_family('asan', 'c04', 'r', env=env, hi=per['r'] * (2 if quick else 8), per_case_timeout=600, chunk=1)
+    c.run_family('asan', 'c04', 'r', env=env, hi=per['r'] * (2 if quick else 5), per_case_timeout=600, chunk=1)
     c.run_family('asan', 'c04', 'm', env=env, hi=per['m'] * (1 if quick else 3), per_case_timeout=600, chunk=1)
     # vacuity: an injector without a single location anywhere is a harness bug
     # (the statistics of a worker that died are lost: a crash inside an injector is itself one location of that injector)
@@ -39,6 +39,7 @@ def main(tier):
         raise sup.HarnessError('injectors without any applicable location: %s' % ', '.join(empty))
     c.extra_cov['faults_injected_per_injector'] = {n: c.counters.get('loc:' + n, 0) for n in catalogue}
     c.extra_cov['injectors'] = len(catalogue)
+    c.notes.append("families h, i, r, m are run twice (plain: all cases; asan: the cases of the smallest bases), so their 'evaluated' exceeds 'count' by the asan share; faults_injected_per_injector counts both")
     return c.finish(
         rule='case = (base model, injector): index -> (base, injector) is a bijection and the bases of a family are the complete product of its grammar '
              'dimensions (component forests of <= %d components in every shape/child order x 1-2 variables x every set of <= 3 admissible connections x '
@@ -52,7 +53,7 @@ def main(tier):
             'cyclic units are injected only on units that no connected variable reaches; the cycle-under-connection class is the separate family cyc (6 cases)',
             'math-bearing families (r, m) run the injectors for which resets/math matter (reset-*, math-*, ids of reset/test_value/reset_value, names referenced from ci); all other injectors meet the same location classes on the math-free families',
             'a math fault replaces the right-hand side (component math) or the whole value expression (test_value/reset_value); the per-operator bases (mops) are judged by oracle 1 only',
-            'arity table: operand counts as libcellml states them for each MathML 2.0 operator family (relational exactly 2, n-ary logical >= 2, plus >= 1, times >= 2, min/max >= 1, rem/divide/power exactly 2, unary exactly 1)',
+            'arity table: operand counts as libcellml states them for each MathML 2.0 operator family (relational exactly 2, n-ary logical >= 2, plus >= 1, times >= 2, min/max >= 2, rem/divide/power exactly 2, unary exactly 1)',
             'importing the same units twice (same source and reference) is treated as a fault because the validator implements it as a reading of 2.3.2; no valid base does it',
             'quick tier: forests of <= 3 components, rotated reset attribute combinations; thorough: <= 4 components (decoration dimensions rotated at size 4), all reset combinations, all SI prefixes and standard unit names',
         ])
